@@ -680,4 +680,7 @@ func (e *codecEnv) runDirectedPrograms(rng *rand.Rand, emit bool) {
 	e.prog = 451
 	e.runCompactSeparatorProbe(rng2)
 	e.st.Programs++
+	e.prog = 460
+	e.runUintSizeTable(rng2, emit)
+	e.st.Programs++
 }
